@@ -36,7 +36,27 @@ def region_text(region, vtree, state, vtext, clock_fields=None):
         merged = dict(clock_fields)
         merged.update({k: v for k, v in state.items() if v is not None})
         state = merged
+    when = version_date(state)
+    if when is not None:
+        # the version names a day: calendar parts that it does not spell out itself (the quarter of a day-of-year version,
+        # the month of one) are those of that day
+        merged = rp.cal_fields(when)
+        merged.update({k: v for k, v in state.items() if v is not None})
+        state = merged
     return rp.render(legacy.tokenize_any(region), state)
+
+
+def version_date(state):
+    import datetime as _dt
+    y = state.get("year_y")
+    try:
+        if y is not None and state.get("doy") is not None:
+            return _dt.date(y, 1, 1) + _dt.timedelta(days=state["doy"] - 1)
+        if y is not None and state.get("month") is not None and state.get("dom") is not None:
+            return _dt.date(y, state["month"], state["dom"])
+    except (ValueError, OverflowError):
+        return None
+    return None
 
 
 class World:
